@@ -45,6 +45,14 @@ TStep ==
      \/ TEv.a = "DataReturn" /\ TEv.err = "" /\ DataReturn(TEv.s, SeqSet(TEv.attrs), TEv.dt) /\ pc'[TEv.s] # "failed"
      \* a reply that made get_outputs raise: the produced attributes were not logged, TLC infers them
      \/ TEv.a = "DataReturn" /\ TEv.err # "" /\ (\E A \in SUBSET OutReq(TEv.s) : DataReturn(TEv.s, A, TEv.dt)) /\ pc'[TEv.s] = "failed"
+     \* the process of a simulator ended with an exception: either the failing section was already logged (StepReturn /
+     \* DataReturn record with err), or it is a section that raises before its hook (guards of BeginStep, progress backwards)
+     \/ TEv.a = "Failed" /\ pc[TEv.s] = "failed" /\ UNCHANGED vars
+     \/ TEv.a = "Failed" /\ pc[TEv.s] = "wait" /\ BeginStep(TEv.s) /\ pc'[TEv.s] = "failed"
+     \/ TEv.a = "Failed" /\ pc[TEv.s] = "step" /\ pc'[TEv.s] = "failed"
+           /\ \E r \in [nk : {"int", "none", "bad"}, n : 0..(Until + 4)] : StepReturn(TEv.s, r)
+     \/ TEv.a = "Failed" /\ pc[TEv.s] = "getdata" /\ pc'[TEv.s] = "failed"
+           /\ \E A \in SUBSET OutReq(TEv.s) : \E dt \in FutOffs \cup {-1} : DataReturn(TEv.s, A, dt)
   /\ PostOk
   /\ l' = l + 1 /\ tid' = tid
 
